@@ -139,4 +139,14 @@ ENTRIES = {
             "A literal list on a collection attribute is outside the statement; multiplicities not compared. Open finding "
             "C11-F1 (existential de-duplication by value when match_any is the only constraint).",
             "DESIGN.md section 3 C11"),
+    "C17": ("exploration",
+            "exhaustive enumeration of generated dataclass models x hand-over orders x read-only operation sequences vs an independent get_type_hints analysis",
+            "36k generated models (<=3 classes, every inheritance forest, relation fields X / Optional[X] / List / Set / Sequence / Type "
+            "to every target incl. self, two fields to one target, string forward references and __future__ annotations, private "
+            "fields, rotating scalar blocks) are imported and handed to ClassDiagram in different orders; nodes, inheritance "
+            "edges, association edges and every WrappedField predicate are compared with an independent typing-based reading; "
+            "windows that together cover every sequence of <=2 (thorough 3) read-only operations are applied with the snapshot "
+            "re-taken after each operation, and derived sub-diagrams are compared with the documented edge set.",
+            "Quick tier: 3-class models carry <=1 relation field per class and two hand-over orders; unions other than Optional not generated.",
+            "DESIGN.md section 3 C17"),
 }
